@@ -39,6 +39,12 @@ shared! {
         fn mk(_: i128) -> Zs { Zs }
         fn rd(&self) -> i128 { 0 }
     }
+    /// fn pointers: the value is what the function returns (elements written as distinct fn items,
+    /// which only coerce to this one type inside a single array literal / with an expected type)
+    impl El for fn() -> u32 {
+        fn mk(_: i128) -> fn() -> u32 { fn zero() -> u32 { 0 } zero }
+        fn rd(&self) -> i128 { (*self)() as i128 }
+    }
     /// the i-th element expression: a side effect, then a value
     pub fn e<T: El>(i: i128) -> T { lg(i); T::mk(i) }
 
